@@ -137,6 +137,14 @@ func SignTBS(alg int64, priv crypto.PrivateKey, tbs []byte) ([]byte, error) {
 	return nil, fmt.Errorf("icose: unsupported alg %d", alg)
 }
 
+// Digest hashes tbs with the hash function alg prescribes (ECDSA and RSA-PSS).
+func Digest(alg int64, tbs []byte) []byte {
+	_, newH := algHash(alg)
+	h := newH()
+	h.Write(tbs)
+	return h.Sum(nil)
+}
+
 // VerifyTBS verifies sig over tbs.
 func VerifyTBS(alg int64, pub crypto.PublicKey, tbs, sig []byte) bool {
 	switch alg {
